@@ -765,7 +765,9 @@ def write_cache_time(f: IO[bytes], t: int | float | tuple[int, int]) -> None:
         t = (int(secs), int(nsecs * 1000000000))
     elif not isinstance(t, tuple):
         raise TypeError(t)
-    f.write(struct.pack(">LL", *t))
+    # the fields are 32 bits wide; like git, keep the low bits of what does
+    # not fit (times before 1970 or after 2106)
+    f.write(struct.pack(">LL", t[0] & 0xFFFFFFFF, t[1] & 0xFFFFFFFF))
 
 
 def read_cache_entry(
@@ -875,7 +877,7 @@ def write_cache_entry(
             entry.mode,
             entry.uid,
             entry.gid,
-            entry.size,
+            entry.size & 0xFFFFFFFF,
             hex_to_sha(entry.sha),
             flags,
         )
